@@ -81,7 +81,10 @@ CHECKS["C12"] = dict(
     technique="symbolic execution of blackbird.loads from an arbitrary (havoc) pre-state of the process-wide tables vs from empty tables; z3 decides outcome inequality; two-load history replay",
     text="One inductive step instead of call histories: _VAR/_PARAMS are havoc tables (any name may be left behind with a symbolic value of forked type until "
          "the code clears them); the outcome of each skeleton script on every such path is compared with its outcome from empty tables by z3; a differing "
-         "pre-state is replayed as a real failed-load-then-load history. Plus an identity walk for shared mutable state and an AST scan for other module state.",
+         "pre-state is replayed as a real failed-load-then-load history (several kinds of failing first loads). Twin loads: a twin of the script (other symbolic values, "
+         "optionally failing, optionally every concrete literal shifted by one) and then the script are loaded in ONE explored path and z3 decides, for all values of both, that the "
+         "second outcome equals the outcome of the script alone - state nobody declared is covered without naming it; each pair is also run natively in forked interpreters. "
+         "Concrete file histories (nested includes rewritten, preserved / backwards mtimes, same relative path after chdir). Plus an identity walk for shared mutable state and an AST scan for other module state.",
     note=E2NOTE,
 )
 
@@ -109,7 +112,7 @@ CHECKS["C09"] = dict(
     text="Programs are built through the API from proxies of every supported kind and NumPy/Python type tag in positional, keyword, mode and option position; the real "
          "serialize() prints them (placeholder lexemes, sign forks), the real loads() re-parses the text, and z3 decides for all values whether the re-loaded program "
          "differs. The lexeme lemma (every printed int/float/complex text is one token of that kind, strings <= M) is a bounded automata query; special floats "
-         "(negative zero, subnormal, 1e+-300) are concrete instantiations.",
+         "(negative zero, subnormal, 1e+-300), arrays with two-digit dimensions and non-contiguous array views are concrete instantiations.",
     note=E2NOTE,
 )
 
@@ -163,8 +166,9 @@ CHECKS["C18"] = dict(
     technique="SMT (z3): tokenisation chain of the shipped lexer ATN over symbolic characters (blank/comment insertion, newline styles, tab vs 4 spaces) and CFG membership of the shipped parser ATN over symbolic token sequences (blank-line edits); plus symbolic execution of loads on layout variants of skeleton scripts",
     text="Token-stream invariance under the layout edits is decided by z3 on the shipped lexer automaton for all strings <= M characters (one query per length, edit position and "
          "inserted length, each with a reachability twin); blank-line / final-newline edits are decided on the shipped parser automaton for all sentences <= N tokens; "
-         "an E2 metamorphic run loads layout variants of the C02 skeletons with symbolic values and lets z3 compare the contents. Parse-tree equality modulo layout leaves is "
-         "not decided beyond that family.",
+         "O7: for every lexer rule other than strings, comments and layout z3 decides that no accepted string <= M+3 contains a blank (blanks only separate tokens); "
+         "an E2 metamorphic run loads layout variants of the C02 skeletons (and of scripts with code-like strings / token-character comments) with symbolic values and lets z3 compare the contents. "
+         "Parse-tree equality modulo layout leaves is not decided beyond that family.",
     note="Trusted: antlr4 runtime semantics of the ATNs (C14), z3; E2 part: as the other E2 checks. Bounded by M, N and the skeleton family.",
 )
 
@@ -183,7 +187,8 @@ CHECKS["C17"] = dict(
     technique="symbolic execution of BlackbirdProgram.__call__ and match_template on symbolic parameter values (SymPy boundary crossed with stand-in symbols); z3 decides recovered value != instantiation value for every order-preserving permutation; concrete runs for structural edits",
     text="Reduced claim in the real-number model: for each template of the family and EVERY reordering of its instance that preserves the order on each mode, the real "
          "match_template runs on symbolic parameter values and z3 decides that no TemplateError path is feasible and that every recovered value equals the value used for "
-         "instantiation. Rejection of single structural edits is checked on concrete instances. The float-rounding inconsistency after solve() is invisible in this model and stated as a gap.",
+         "instantiation; the same for an instance assembled by hand, and for a second match after the arguments of the same object were changed (second set of symbolic values). "
+         "Rejection of single structural edits (on fresh copies, on copies taken after a match, on matched copies) is checked on concrete instances. The float-rounding inconsistency after solve() is invisible in this model and stated as a gap.",
     note=E2NOTE + " Additionally trusted here: sympy.solve, networkx DiGraphMatcher.",
 )
 
